@@ -177,7 +177,19 @@ def setItem2 (C : Mat K) (r c : Int) (v : K) : PyM (Mat K) :=
     else .error .index
   else .error .index
 
+/-- `np.tile(np.identity(n), (R, 1))`: `R` copies of the `n × n` identity stacked vertically
+    (`ValueError` for a negative dimension / repetition count). -/
+def npTileIdentity (n R : Int) : PyM (Mat K) :=
+  if n < 0 ∨ R < 0 then .error .value else .ok (Basis.tileIdentity n.toNat R.toNat)
+
+/-- `A @ B` for 2-d arrays (`ValueError` when the inner dimensions differ). -/
+def npMatmul (A B : Mat K) : PyM (Mat K) :=
+  if 0 < A.size ∧ (A.getD 0 #[]).size ≠ B.size then .error .value else .ok (Mat.mul A B)
+
 /-! ## scalars -/
+
+/-- `a // n` on Python ints (floor division; `ZeroDivisionError` for `n = 0`). -/
+def pyFloorDivI (a n : Int) : PyM Int := if n = 0 then .error .zeroDiv else .ok (Int.fdiv a n)
 
 /-- `x / d` for a Python float `x` and a Python int `d`: `ZeroDivisionError` for `d = 0`. -/
 def pyDivI (x : K) (d : Int) : PyM K := if d = 0 then .error .zeroDiv else .ok (x / (d : K))
